@@ -109,6 +109,11 @@ func factsC04() {
 	emitStr("f_c04_router_receive_text", normText("bus/router.go", "Router", "Receive"))
 	emitStr("f_c04_service_receive_text", normText("bus/service.go", "serviceImpl", "Receive"))
 	emitStr("f_c04_mailbox_text", normText("bus/mailbox.go", "", "NewMailBox"))
+	// the optional wrappers of the reply channel (statistics, traces): objectImpl.Tracer builds them
+	// around the channel of the message at hand, their Send ends in the Send of that channel
+	emitStr("f_c04_tracer_text", normText("bus/object.go", "objectImpl", "Tracer"))
+	emitStr("f_c04_statchannel_send_text", normText("bus/channel.go", "statChannel", "Send"))
+	emitStr("f_c04_tracedchannel_send_text", normText("bus/channel.go", "tracedChannel", "Send"))
 	// generated stubs switch on the action only
 	emitStr("f_c04_stub_switch_object", switchTags("bus/object_stub_gen.go", "stubObject", "Receive"))
 	emitStr("f_c04_stub_switch_pingpong", switchTags("examples/pong/ping_stub_gen.go", "stubPingPong", "Receive"))
